@@ -79,6 +79,23 @@ Print Assumptions C07_width.
 Example C07_width_ex : cap_bound = 2 ^ 62 /\ wrap64 (9223372036854775807 + 1) = - 9223372036854775808 /\ wrap64 (-5) = -5.
 Proof. repeat split. Qed.
 
+(* slice.Rotate's own arithmetic (sliceCheck's i += n, the loop's (i + k) % len) is in Z in the
+   model at both widths.  Through the C17 slice's 64-bit re-statement of Rotate: the call Add and
+   Push make in any reachable state of fewer than 2^62 slots, with the offset -head computed in
+   64 bits, gives exactly what the model's call gives. *)
+Theorem C07_rotate_width : forall (T : Type) (q : queue T),
+  (0 <= n q <= zlen T (vs q) /\ 0 <= head q /\ (head q < zlen T (vs q) \/ head q = 0) /\ (n q = 0 -> head q = 0)) ->
+  zlen T (vs q) < cap_bound ->
+  Slice.SliceUtilProofsInt.rotate_impl64 (vs q) (wrap64 (Gen.QueueIdx.add_rot_k (head q)))
+    = Slice.SliceUtilModel.rotate_impl (vs q) (idw (Gen.QueueIdx.add_rot_k (head q))) /\
+  Slice.SliceUtilProofsInt.rotate_impl64 (vs q) (wrap64 (Gen.QueueIdx.push_rot_k (head q)))
+    = Slice.SliceUtilModel.rotate_impl (vs q) (idw (Gen.QueueIdx.push_rot_k (head q))).
+Proof. exact rotate_call_width. Qed.
+Print Assumptions C07_rotate_width.
+Example C07_rotate_width_ex :
+  Slice.SliceUtilProofsInt.rotate_impl64 [5; 6; 1; 2; 3; 4] (wrap64 (Gen.QueueIdx.add_rot_k 2)) = Slice.SliceUtilModel.Ok [1; 2; 3; 4; 5; 6].
+Proof. vm_compute. reflexivity. Qed.
+
 (* Without the bound C07_history64 is FALSE -- a defect of queue.Add's `pos := q.head + q.n` for
    zero-size element types: on a ring of N = 2^63-1 slots (queue.NewSize[struct{}](math.MaxInt)
    succeeds), Push puts head at N-1, Add wraps correctly to slot 0, and the next Add computes
